@@ -241,6 +241,8 @@ def eval_timeout(case):
 
 
 def evaluate(case):
+    if "macro_twice" in case:
+        return eval_macro_twice(case)
     if "long_listing" in case:
         return eval_long(case)
     if "timeout_after" in case:
@@ -464,6 +466,9 @@ def _zone_worker(cut):
     if isinstance(cut, tuple):
         case = {"binary_sections": list(cut)}
         return case, eval_binary_sections(case)
+    if isinstance(cut, str) and cut in MACRO_TWICE:
+        case = {"macro_twice": cut}
+        return case, eval_macro_twice(case)
     if isinstance(cut, str) and cut in LONG_RUNS:
         case = {"long_run": cut}
         return case, eval_long_run(case)
@@ -472,6 +477,38 @@ def _zone_worker(cut):
         return case, eval_wide_anyorder(case)
     case = {"zone_cut": cut}
     return case, eval_zone(case)
+
+
+# one argument-less list macro invoked more than once in a rule, the invocations carrying different `times` (both spellings): the scan
+# of the macro rule is judged against the reference over the inlined rule
+MACRO_TWICE = {
+    "times-then-plain": ([{"@ypad_": {"times": 2}}, "mov", "@ypad_", "ret"], [{"$and": [{"$or": ["nop", "xchg"]}], "times": 2}, "mov", {"$or": ["nop", "xchg"]}, "ret"]),
+    "plain-then-times": (["@ypad_", "mov", {"@ypad_": [], "times": 3}, "ret"], [{"$or": ["nop", "xchg"]}, "mov", {"$and": [{"$or": ["nop", "xchg"]}], "times": 3}, "ret"]),
+    "two-different-times": ([{"@ypad_": {"times": 2}}, "mov", {"@ypad_": {"times": {"min": 0, "max": 1}}}, "ret"],
+                            [{"$and": [{"$or": ["nop", "xchg"]}], "times": 2}, "mov", {"$and": [{"$or": ["nop", "xchg"]}], "times": {"min": 0, "max": 1}}, "ret"]),
+}
+
+
+def eval_macro_twice(case):
+    ev = Eval()
+    tag = case["macro_twice"]
+    pattern, inlined = MACRO_TWICE[tag]
+    ms = ["push", "nop", "nop", "mov", "nop", "ret", "nop", "mov", "nop", "nop", "nop", "ret", "xchg", "nop", "mov", "ret", "nop", "nop", "mov", "xchg", "ret", "nop", "mov", "ret"]
+    NV = [(format(0x401000 + 2 * q, "x"), m, ["%rbx", "%rcx"] if m in ("mov", "xchg") else []) for q, m in enumerate(ms)]
+    spans = Ref(NV, False, False).spans(inlined)
+    doc = jasm_io.make_doc(pattern, macros=[{"name": "@ypad_", "pattern": [{"$or": ["nop", "xchg"]}]}])
+    res = run_all_modes(doc, render(NV), None, combos=[("list", "all", False), ("list", "first", False)])
+    ev.subcases = 2
+    if all(r[0] == "ok" for r in res.values()):
+        check_scan(ev, inlined, NV, res[("list", "all", False)][1], res[("list", "first", False)][1], spans, ctx={"macro_twice": tag})
+    elif any(r[0] == "exc" for r in res.values()):
+        ev.dev("exception", macro_twice=tag, error=[list(r[:2]) for r in res.values()])
+    else:
+        ev.inconclusive += 1
+    ev.tags = ["macro-twice", "macro-twice=" + tag]
+    ev.nontrivial = True
+    ev.keys = [("macro-twice", tag)]
+    return ev
 
 
 WIDE_KIDS = ["push", "push", "mov", "sub", "lea", "xor", "call"]
@@ -536,10 +573,11 @@ def extra(tier, seed, rep):
     from vlib import longlist
 
     with mp.get_context("fork").Pool(16, maxtasksperchild=1) as pool:
-        for case, ev in pool.imap_unordered(_zone_worker, ["archive-listing", (".text.hot", ".text"), (".text", ".text.hot"), (".text.hot", ".nosuch", ".text")] + ["near-window-then-genuine", "near-window-only", "two-genuine-adjacent", "more-specific-child"] + sorted(LONG_RUNS) + sorted(longlist.CUTS, reverse=True), chunksize=1):
+        for case, ev in pool.imap_unordered(_zone_worker, ["archive-listing", (".text.hot", ".text"), (".text", ".text.hot"), (".text.hot", ".nosuch", ".text")] + ["near-window-then-genuine", "near-window-only", "two-genuine-adjacent", "more-specific-child"] + sorted(MACRO_TWICE) + sorted(LONG_RUNS) + sorted(longlist.CUTS, reverse=True), chunksize=1):
             rep.add_eval(case, ev)
     rep.exhaustive_parts.append("the listing of a three-member static library (text and binary input): scan laws across member boundaries")
     rep.exhaustive_parts.append("3 section lists in and out of file order on a linked ELF given as binary: the scan is in address order and equals the text route's")
+    rep.exhaustive_parts.append("3 rules that invoke one list macro twice with different times: the scan against the reference over the inlined rule")
     rep.exhaustive_parts.append("5 runs of 1000-1003 instructions against repetition bounds of 999 / 1000 followed by more pattern")
     rep.exhaustive_parts.append("4 fixed listings for a 7-child $and_any_order with a doubled / more specific child (windows that fit child by child but not one-to-one)")
     for k_ in (0, 1, 2, 5, 6, 9):
